@@ -133,6 +133,16 @@ pub mod fs {
                 w.healthy && readable(w.fs, p.pathv()) ==> r is Ok,
                 r is Err && !exists_at(w.fs, p.pathv()) ==> r->Err_0.spec_kind() == io::ErrorKind::NotFound,
         { unimplemented!() }
+        /// std::io::Read::read_to_end: appends what is left of the file to `buf`
+        #[verifier::external_body]
+        pub fn read_to_end(&mut self, buf: &mut Vec<u8>) -> (r: io::Result<usize>)
+            ensures
+                final(self)@.path == old(self)@.path, final(self)@.mode == old(self)@.mode,
+                final(self)@.reliable == old(self)@.reliable, final(self)@.content == old(self)@.content,
+                r is Ok ==> old(self)@.pos <= old(self)@.content.len() && final(self)@.pos == old(self)@.content.len()
+                    && final(buf)@ == old(buf)@ + old(self)@.content.subrange(old(self)@.pos, old(self)@.content.len() as int)
+                    && r->Ok_0 == old(self)@.content.len() - old(self)@.pos,
+        { unimplemented!() }
         /// std::io::Read::read
         #[verifier::external_body]
         pub fn read(&mut self, buf: &mut [u8]) -> (r: io::Result<usize>)
